@@ -11,6 +11,7 @@ import (
 	"sort"
 	"strconv"
 	"strings"
+	"sync"
 	"time"
 
 	"symgo/exec"
@@ -33,7 +34,13 @@ type HarnessCfg struct {
 	NoCross  bool     `json:"no_cross,omitempty"` // skip the thorough tier's re-decision by a second solver
 	Pkg      string   `json:"pkg,omitempty"`      // harness lives in another package than the property's main one (engine-replayed only)
 	HDir     string   `json:"hdir,omitempty"`
-	selftest bool
+	// Cases: completed paths kept per worker for the native run (default 2); a large value keeps every path.
+	Cases int `json:"cases,omitempty"`
+	// Differential: the engine explores the reference model only; the native run of each kept path
+	// executes the real code next to the model and asserts agreement, so a native assertion failure
+	// on a path the engine completed is a violation (not a translator mismatch).
+	Differential bool `json:"differential,omitempty"`
+	selftest     bool
 }
 
 type PropCfg struct {
@@ -139,6 +146,9 @@ func nativeRun(p *exec.Program, cases []nativeCase) ([]nativeResult, string, err
 		}
 		os.WriteFile(filepath.Join(dir, f), b, 0o644)
 	}
+	if len(cases) > 512 {
+		return nativeRunSharded(p, dir, ovPath, cases)
+	}
 	cmd := osexec.Command("go", "test", "-modfile="+filepath.Join(dir, "go.mod"), "-vet=off", "-count=1", "-run", "^TestVPReplay$", "-overlay", ovPath, "-timeout", "20m", ".")
 	cmd.Dir = p.PkgDir
 	cmd.Env = append(nativeEnv(), "VP_BATCH="+inPath, "VP_OUT="+outPath)
@@ -155,6 +165,71 @@ func nativeRun(p *exec.Program, cases []nativeCase) ([]nativeResult, string, err
 		return nil, string(out), err
 	}
 	return res, string(out), nil
+}
+
+// nativeRunSharded builds the test binary once and runs the cases in parallel shards.
+func nativeRunSharded(p *exec.Program, dir, ovPath string, cases []nativeCase) ([]nativeResult, string, error) {
+	bin := filepath.Join(dir, "replay.test")
+	cmd := osexec.Command("go", "test", "-c", "-o", bin, "-modfile="+filepath.Join(dir, "go.mod"), "-vet=off", "-overlay", ovPath, ".")
+	cmd.Dir = p.PkgDir
+	cmd.Env = nativeEnv()
+	if out, err := cmd.CombinedOutput(); err != nil {
+		return nil, string(out), fmt.Errorf("native replay build failed: %v", err)
+	}
+	nsh := 16
+	per := (len(cases) + nsh - 1) / nsh
+	type shardRes struct {
+		res []nativeResult
+		out string
+		err error
+	}
+	rs := make([]shardRes, nsh)
+	var wg sync.WaitGroup
+	for k := 0; k < nsh; k++ {
+		lo, hi := k*per, (k+1)*per
+		if lo >= len(cases) {
+			break
+		}
+		if hi > len(cases) {
+			hi = len(cases)
+		}
+		wg.Add(1)
+		go func(k, lo, hi int) {
+			defer wg.Done()
+			in := filepath.Join(dir, fmt.Sprintf("batch%d.json", k))
+			outp := filepath.Join(dir, fmt.Sprintf("out%d.json", k))
+			cb, _ := json.Marshal(cases[lo:hi])
+			os.WriteFile(in, cb, 0o644)
+			c := osexec.Command(bin, "-test.run", "^TestVPReplay$", "-test.count=1", "-test.timeout", "30m")
+			c.Dir = p.PkgDir
+			c.Env = append(nativeEnv(), "VP_BATCH="+in, "VP_OUT="+outp)
+			o, err := c.CombinedOutput()
+			if err != nil {
+				rs[k] = shardRes{nil, string(o), fmt.Errorf("native replay shard %d failed: %v", k, err)}
+				return
+			}
+			rb, err := os.ReadFile(outp)
+			if err != nil {
+				rs[k] = shardRes{nil, string(o), err}
+				return
+			}
+			var res []nativeResult
+			if err := json.Unmarshal(rb, &res); err != nil || len(res) != hi-lo {
+				rs[k] = shardRes{nil, string(o), fmt.Errorf("native replay shard %d: bad output (%v, %d results for %d cases)", k, err, len(res), hi-lo)}
+				return
+			}
+			rs[k] = shardRes{res, string(o), nil}
+		}(k, lo, hi)
+	}
+	wg.Wait()
+	var all []nativeResult
+	for _, r := range rs {
+		if r.err != nil {
+			return nil, r.out, r.err
+		}
+		all = append(all, r.res...)
+	}
+	return all, "", nil
 }
 
 // ---------------------------------------------------------------------------
@@ -324,6 +399,9 @@ func cmdCheck(args []string) int {
 		if h.selftest {
 			x.NCases = 4
 		}
+		if h.Cases > 0 {
+			x.NCases = h.Cases
+		}
 		budget := h.MaxSecs
 		if budget == 0 {
 			budget = 900 // quick: nothing may run away (a changed tree can blow a harness up)
@@ -439,6 +517,13 @@ func cmdCheck(args []string) int {
 
 	// violations -> replay files (+ native cases)
 	os.MkdirAll(filepath.Join(*verif, "replay"), 0o755)
+	if *only == "" {
+		// replay files of earlier runs of this property are stale
+		old, _ := filepath.Glob(filepath.Join(*verif, "replay", prop+"_*.json"))
+		for _, f := range old {
+			os.Remove(f)
+		}
+	}
 	type pending struct {
 		path   string
 		rf     replayFile
@@ -473,6 +558,13 @@ func cmdCheck(args []string) int {
 
 	// native run: sampled paths must agree, counterexamples must reproduce
 	validated := 0
+	var diffViol []int
+	diffHarness := map[string]bool{}
+	for _, h := range cfg.Harnesses {
+		if h.Differential {
+			diffHarness[h.Name] = true
+		}
+	}
 	var natRes []nativeResult
 	if len(natCases) > 0 {
 		res, out, err := nativeRun(p, natCases)
@@ -482,6 +574,10 @@ func cmdCheck(args []string) int {
 			natRes = res
 			for i, exp := range natExpect {
 				got := res[i]
+				if diffHarness[natCases[i].Harness] && strings.HasPrefix(got.End, "assert:") {
+					diffViol = append(diffViol, i)
+					continue
+				}
 				if got.End != "ok" || strings.Join(got.Reach, ",") != strings.Join(exp.Reach, ",") || strings.Join(got.Obs, "|") != strings.Join(exp.Obs, "|") {
 					problems = append(problems, fmt.Sprintf("translator validation: native run of a sampled path of %s differs: native end=%s reach=%v obs=%v, engine reach=%v obs=%v inputs=%v",
 						natCases[i].Harness, got.End, got.Reach, got.Obs, exp.Reach, exp.Obs, exp.Inputs))
@@ -539,6 +635,26 @@ func cmdCheck(args []string) int {
 		lines = append(lines, fmt.Sprintf("  harness=%s label=%s %s %s inputs=%v", pd.rf.Harness, pd.rf.Label, pd.rf.Msg, how, compactInputs(pd.rf.Inputs)))
 		exit = 1
 	}
+	// differential harnesses: the real code disagreed with the reference model on a path's witness
+	diffSeen := map[string]bool{}
+	for _, i := range diffViol {
+		c, got := natCases[i], natRes[i]
+		label := strings.TrimPrefix(got.End, "assert:")
+		key := c.Harness + "|" + label
+		if diffSeen[key] {
+			continue
+		}
+		diffSeen[key] = true
+		rf := replayFile{Property: prop, Harness: c.Harness, Pkg: cfg.Pkg, HDir: cfg.HDir, Tier: tier, Label: label,
+			Msg: "the real code disagrees with the reference model on this path's witness", Native: true, Inputs: c.Inputs}
+		path := filepath.Join(*verif, "replay", fmt.Sprintf("%s_%s_d%d.json", prop, c.Harness, i))
+		b, _ := json.MarshalIndent(rf, "", " ")
+		os.WriteFile(path, b, 0o644)
+		nViol++
+		lines = append(lines, fmt.Sprintf("VIOLATION property=%s replay=%s", prop, path))
+		lines = append(lines, fmt.Sprintf("  harness=%s label=%s observed natively (go test -overlay) on the witness of a completed model path inputs=%v", c.Harness, label, compactInputs(c.Inputs)))
+		exit = 1
+	}
 	for _, l := range lines {
 		fmt.Println(l)
 	}
@@ -554,6 +670,20 @@ func cmdCheck(args []string) int {
 	sort.Strings(fnList)
 	if len(samples) == 0 {
 		samples = append(samples, map[string]interface{}{"note": "no multi-decision path in this run"})
+	}
+	diffInfo := map[string]interface{}{}
+	for name := range diffHarness {
+		nrun := 0
+		for i := range natExpect {
+			if natCases[i].Harness == name {
+				nrun++
+			}
+		}
+		diffInfo[name] = map[string]interface{}{
+			"what":                     "the engine explores the reference model only; each completed model path yields one solver-produced witness that is executed natively on the real code next to the model; agreement is asserted natively (concrete, one witness per path: not a solver verdict over all values of the real code)",
+			"witnesses_run_natively":   nrun,
+			"disagreements_with_model": len(diffViol),
+		}
 	}
 	cov := map[string]interface{}{
 		"states":                        states,
@@ -572,6 +702,7 @@ func cmdCheck(args []string) int {
 		"reach_labels":                  reachAll,
 		"known_findings_hit":            kfSeen,
 		"problems":                      problems,
+		"differential":                  diffInfo,
 		"cross_solver_runs":             crossRuns,
 		"cross_solver_disagreements":    crossDisagree,
 		"load_s":                        loadS,
